@@ -33,6 +33,18 @@ var fset = token.NewFileSet()
 var info = &types.Info{Types: map[ast.Expr]types.TypeAndValue{}, Defs: map[*ast.Ident]types.Object{},
 	Uses: map[*ast.Ident]types.Object{}, Selections: map[*ast.SelectorExpr]*types.Selection{}}
 
+type chainImporter struct {
+	base types.Importer
+	pkg  *types.Package
+}
+
+func (c chainImporter) Import(path string) (*types.Package, error) {
+	if path == "github.com/simonvetter/modbus" {
+		return c.pkg, nil
+	}
+	return c.base.Import(path)
+}
+
 func leanStr(s string) string {
 	s = strings.ReplaceAll(s, "\\", "\\\\")
 	s = strings.ReplaceAll(s, "\"", "\\\"")
@@ -156,9 +168,18 @@ func main() {
 		cliFile = f
 	}
 	var typeErrs []string
-	conf := types.Config{Importer: importer.ForCompiler(fset, "source", nil),
+	srcImporter := importer.ForCompiler(fset, "source", nil) // one instance: packages are cached per instance
+	conf := types.Config{Importer: srcImporter,
 		Error: func(err error) { typeErrs = append(typeErrs, err.Error()) }}
 	pkg, _ := conf.Check("github.com/simonvetter/modbus", fset, files, info)
+	// the command-line tool is a separate package (main) importing the library: type-check it
+	// against the package just checked, into the same info maps, so that its expressions can be
+	// rendered with their Go types (errors here are reported but do not stop the extraction)
+	if cliFile != nil && pkg != nil {
+		cliConf := types.Config{Importer: chainImporter{base: srcImporter, pkg: pkg},
+			Error: func(err error) { typeErrs = append(typeErrs, "cli: "+err.Error()) }}
+		cliConf.Check("main", fset, []*ast.File{cliFile}, info)
+	}
 
 	var w bytes.Buffer
 	p := func(format string, a ...interface{}) { fmt.Fprintf(&w, format, a...) }
@@ -251,6 +272,9 @@ func main() {
 					continue
 				}
 				// tables and literals are collected before logging is stripped (they do not log)
+				if isCli {
+					collectGStmt(name, dd, gstmts)
+				}
 				if !isCli {
 					collectSwitchTable(name, dd, switchTables)
 					collectTLSStruct(name, dd, &tlsStructs)
